@@ -323,9 +323,20 @@ func CloseNoPoint(ch any) {
 		panic("close of closed channel")
 	}
 	s.closed = true
+	// keep the REAL channel's closed state in sync (code outside the scheduler, and the harness after the execution,
+	// look at it).  Close through the value of THIS call: the model may have been registered through a receive-only
+	// view of the channel (a Recv seen first), and reflect refuses to close through such a view.
+	_, v := chanKey(ch)
 	func() {
-		defer func() { recover() }()
-		s.real.Close()
+		defer func() {
+			if r := recover(); r != nil {
+				func() {
+					defer func() { recover() }()
+					s.real.Close()
+				}()
+			}
+		}()
+		v.Close()
 	}()
 }
 
